@@ -346,8 +346,21 @@ def gen_case(rnd, ctx, maxmut):
     ctx.count("history-length:%03d" % (10 * (len(ops) // 10)))
     if deferred:
         ctx.count("registration:deferred")
+    reentrant = None
+    if rnd.random() < 0.3:
+        # a second legacy registration for the same name, removed by the first handler while a notification
+        # round for the final attribute is in progress (armed at these Probe steps, fires at the first call)
+        reg_at = next(i for i, o in enumerate(ops) if o[0] == "Reg")
+        probes_at = [i for i, o in enumerate(ops) if o[0] == "Probe" and i > reg_at]
+        if probes_at:
+            start = rnd.randrange(len(probes_at))
+            reentrant = probes_at[start:]
+            ctx.count("registration:reentrant-removal")
+    falsy = rnd.random() < 0.3           # pool objects with __len__: falsy while their kids list is empty
+    if falsy:
+        ctx.count("pool:falsy-objects")
     return dict(npool=npool, root=0, items=items, legacy=legacy_text(items), graphs=l2g(items), ops=ops,
-                deferred=deferred)
+                deferred=deferred, falsy=falsy, reentrant=reentrant)
 
 
 def corpus():
@@ -392,6 +405,46 @@ def check_hyps(ctx, cases):
         ctx.notes.append("hyps false on case %d: %r" % (bad[0], cases[bad[0]]["ops"]))
 
 
+def check_reentrant(ctx, cases):
+    """Re-entrant removal (C16.Law.reent_codes): a handler removed during a notification round is not called in
+    that round nor later; until then both legacy registrations are called alike."""
+    sub = [c for c in cases if c.get("reentrant")]
+    name = "re-entrant removal of a second legacy registration (C16.Law.reent_codes) on %d histories" % len(sub)
+    if not sub:
+        return
+    rc, obs, err = ctx.run_driver(DRIVER, sub)
+    if rc != 0 or obs is None or len(obs) != len(sub):
+        ctx.obligation(name, False, "driver failed: " + err[-300:])
+        ctx.fail("harness/reentrant", "re-entrant histories could not be run: " + err[-300:], dict(error=err[-1500:]),
+                 no_input=True)
+        return
+    terms = [[(bool(o["second"][0]), Nat(o["second"][1]), Nat(o["second"][2])) for o in ob] for ob in obs]
+    try:
+        (res,) = coqrun.eval_cases(ctx.scratch, "reent", HEADER, "list (bool * nat * nat)", terms, ["reent_codes"])
+    except coqrun.CoqError as e:
+        ctx.obligation(name, False, str(e)[-300:])
+        ctx.fail("harness/reentrant", "re-entrant histories could not be evaluated: %s" % e, dict(error=e.log[-1500:]),
+                 no_input=True)
+        return
+    seen = set()
+    fired = sum(1 for ob in obs if any(o["second"][0] and o["second"][2] for o in ob))
+    for i, code in sorted(res):
+        step, clause = code // 100, code % 100
+        key = "reentrant/%s/%s" % ({8: "called-after-removal", 9: "registrations-differ"}.get(clause, clause),
+                                    opkind(sub[i]["ops"][step]))
+        if key in seen:
+            continue
+        seen.add(key)
+        case = dict(sub[i])
+        case["ops"] = case["ops"][:step + 1]
+        ctx.fail(key, "legacy name %r: second handler removed by the first during a notification: step %d op %r: "
+                      "(removed, calls of the second, calls of the first) = %r" % (
+                          sub[i]["legacy"], step, sub[i]["ops"][step][:4], obs[i][step]["second"]),
+                 dict(kind="law-failure-on-implementation", clause=clause, step=step, case=case,
+                      impl_obs=obs[i][:step + 1]))
+    ctx.obligation(name, not res, "%d histories, removal fired in %d, %d failures" % (len(sub), fired, len(set(i for i, _ in res))))
+
+
 def run(ctx):
     ok, log = ctx.proofs(PROPS)
     ctx.cov["trusted_base"] += [
@@ -422,4 +475,5 @@ def run(ctx):
     c08.truncate_replays(ctx)
     if not ctx.replay:
         check_hyps(ctx, cases)
+    check_reentrant(ctx, cases)
     proof_gate(ctx, ok, log, PROPS)
